@@ -37,6 +37,7 @@ def run(ctx, rep):
     effects_confined(F, rep)
     index_dispatch(F, rep)
     index_guard(F, rep)
+    filter_keeps_what_it_tested(F, rep)
     values_not_views(F, rep)
     # what an assignment instruction writes into a list / map slot is a value, never a view of another slot (shared rule with C08)
     from props import C08 as _c08
@@ -477,6 +478,9 @@ def values_not_views(F, rep):
                     if cc.matches(("core::slice::<impl [T]>::get", "core::slice::<impl [T]>::first", "core::ops::index::Index::index", "alloc::vec::Vec::remove")) and \
                             "bytecode::variables::primitive::Primitive" in ga + (cc.t["func"].get("res") or ""):
                         continue      # an argument (2) or an element of a program list: a value
+                    if cc.matches(("core::option::Option::take", "core::option::Option::replace", "core::mem::take", "core::mem::replace")) and \
+                            _stash_holds_values(F, f, cc, T, MOVE):
+                        continue      # a value parked in a field of the operation object by a sibling method, which took it from a list
                     why_bad.append(mir.short(cc.callee()))
                 elif x[0] == "arg":
                     if "ReturnValue" in f.locals[x[1]] and not why_bad:
@@ -520,3 +524,107 @@ def index_guard(F, rep, rule="C13.index-guard"):
         ok = c.bb not in reach
         rep.ob(rule, "`xs[i]` builds the element view only behind the in-range edge of a test of i itself against the length", "ok" if ok else "violated",
                "" if ok else "the view is reachable without it (%d plain comparisons with len)" % len(cmps), c.span, fn=vo.path, key="%s|index#%d" % (rule, i))
+
+
+
+def filter_keeps_what_it_tested(F, rep, rule="C13.filter-kept"):
+    """`xs.filter(f)` is the sequence of the elements f said yes to.  The callback runs between FilterOp::wait_for (which reads the element and
+    hands it over) and FilterOp::then (which keeps it): it may change the list meanwhile, so `then` must keep the value that was handed
+    over - what it pushes onto the result may not come from a second read of the list (slice::get / Index on the shared vector)."""
+    th = [g for g in F.crates["bytecode"].fns if "FilterOp as bytecode::function::RuntimeExecutionBridgeNotifier>::then" in g.path and g.kind != "Closure"]
+    if len(th) != 1:
+        raise AnchorMissing("FilterOp::then")
+    th = th[0]
+    pushes = [c for c in th.calls() if mir.strip_generics(c.callee()).endswith("Vec::push")]
+    rep.floor(rule + " elements kept by FilterOp::then", len(pushes), 1)
+    READS = ("core::slice::<impl [T]>::get", "core::ops::index::Index::index", "core::slice::<impl [T]>::first", "core::slice::<impl [T]>::last",
+             "core::slice::<impl [T]>::get_unchecked", "alloc::vec::Vec::remove", "alloc::vec::Vec::swap_remove")
+    thr = rules.TRANSPARENT | {rules.TRY_BRANCH, "core::option::Option::cloned", "core::option::Option::copied", "anyhow::Context::context", "anyhow::Context::with_context",
+                               "core::option::Option::ok_or", "core::option::Option::ok_or_else", "core::option::Option::unwrap", "core::option::Option::expect"}
+    for i, c in enumerate(pushes):
+        l = op_local(c.args[1]) if len(c.args) > 1 else None
+        oc = rules.origin_calls(th, l, transparent=thr) if l is not None else []
+        reread = [x for x in oc if x.matches(READS)]
+        rep.ob(rule, "filter keeps the element it handed to the callback", "violated" if reread else "ok",
+               ("the kept value comes from %s in `then`, after the callback ran: a callback that removes an element makes filter keep a neighbour of the one it tested"
+                % sorted({mir.short(mir.strip_generics(x.callee())) for x in reread})) if reread else "", c.span, fn=th.path, key="%s|#%d" % (rule, i))
+
+
+
+def _self_field(fn, local, depth=10):
+    """The field of `self` (parameter 1) a reference / guard was made from, following borrows, guards and derefs backwards."""
+    THROUGH = ("core::cell::RefCell::borrow_mut", "core::cell::RefCell::borrow", "core::ops::deref::DerefMut::deref_mut", "core::ops::deref::Deref::deref",
+               "core::option::Option::as_mut", "core::cell::Cell::as_ptr")
+    cur = local
+    for _ in range(depth):
+        if cur is None:
+            return None
+        ds = [d for d in rules.defs_of(fn, cur) if not (d[3].get("p"))]      # writes *through* the reference are not definitions of it
+        if len(ds) != 1:
+            return None
+        d = ds[0]
+        if d[0] == "call":
+            c = d[4]
+            if c.matches(THROUGH) and c.args:
+                cur = op_local(c.args[0])
+                continue
+            return None
+        rv = d[4]
+        pl = rv.get("ref") or (mir.op_place(rv["use"]) if "use" in rv else None)
+        if not pl:
+            return None
+        if pl["l"] == 1:
+            for e in pl.get("p") or []:
+                if e[0] == "field":
+                    return e[2]
+            return None
+        cur = pl["l"]
+    return None
+
+
+def _stash_holds_values(F, fn, take_call, T, MOVE):
+    """`self.<field>.borrow_mut().take()`: every sibling method that stores into that field stores an element read from a program list (or a
+    copied-out value)."""
+    fld = _self_field(fn, op_local(take_call.args[0]) if take_call.args else None)
+    if fld is None:
+        return False
+    prefix = fn.path.rsplit("::", 1)[0] + "::"
+    stores, bad = 0, 0
+    for g in F.crates["bytecode"].fns:
+        if not g.path.startswith(prefix) or g.kind == "Closure":
+            continue
+        for bi, si, dst, rv, st in g.assigns():
+            pr = dst.get("p") or []
+            if not pr or pr[0][0] != "deref" or len(pr) != 1:
+                continue
+            if _self_field(g, dst["l"]) != fld:
+                continue
+            # `*guard = Some(v)`: the aggregate is built in a temporary first
+            agg = rv if "agg" in rv else None
+            if agg is None and "use" in rv and op_local(rv["use"]) is not None:
+                for d in rules.defs_of(g, op_local(rv["use"])):
+                    if d[0] == "assign" and "agg" in d[4]:
+                        agg = d[4]
+            stores += 1
+            if agg is None or agg["agg"].get("v") != "Some":
+                if agg is not None and agg["agg"].get("v") == "None":
+                    stores -= 1
+                    continue
+                bad += 1
+                continue
+            v = op_local(agg["ops"][0])
+            by = {x.bb: x for x in g.calls()}
+            okv = v is not None
+            for x in (rules.origins(g, v, transparent=T | {"core::clone::Clone::clone"}) if v is not None else ()):
+                if x[0] == "call":
+                    cc = by[x[1]]
+                    ga = " ".join(cc.t["func"].get("ga") or [])
+                    if cc.matches(MOVE) or (cc.matches(("core::slice::<impl [T]>::get", "core::slice::<impl [T]>::first", "core::ops::index::Index::index")) and
+                                            "bytecode::variables::primitive::Primitive" in ga + (cc.t["func"].get("res") or "")):
+                        continue
+                    okv = False
+                elif x[0] != "const":
+                    okv = False
+            if not okv:
+                bad += 1
+    return stores > 0 and bad == 0
